@@ -1,17 +1,412 @@
 package gen
 
-import "gsim/world"
+import (
+	"fmt"
+	"strings"
+
+	"gsim/ref"
+	"gsim/world"
+)
+
+// ---- C09 -------------------------------------------------------------------------
+
+// appendCon builds a constraint for AppendClause (normalised: >=, positive coefficients).
+func appendCon(r *world.Rng, nCur, nMax int) (ref.Con, string) {
+	n := nCur
+	if r.Bool(0.2) && nCur < nMax {
+		n = r.Range(nCur+1, nMax) // mentions variables never seen before
+	}
+	if n < 1 {
+		n = 1
+	}
+	switch r.Intn(10) {
+	case 0, 1, 2, 3: // clause, possibly repeating a literal
+		k := r.Range(1, min(n, 4))
+		l := distinctLits(r, n, k)
+		if r.Bool(0.2) {
+			l = append(l, l[r.Intn(len(l))])
+		}
+		if r.Bool(0.03) {
+			l = []int{}
+		}
+		return ref.Con{Lits: l, K: 1}, "clause"
+	case 4, 5: // unit
+		return ref.Con{Lits: []int{lit(r, n)}, K: 1}, "clause"
+	case 6, 7: // cardinality
+		k := r.Range(2, max(2, min(n, 5)))
+		l := distinctLits(r, n, k)
+		if len(l) < 2 {
+			return ref.Con{Lits: l, K: 1}, "clause"
+		}
+		return ref.Con{Lits: l, K: r.Range(1, len(l))}, "card"
+	default: // PB
+		k := r.Range(1, min(n, 5))
+		l := distinctLits(r, n, k)
+		w := make([]int, len(l))
+		sum := 0
+		for i := range w {
+			w[i] = r.Range(1, 4)
+			sum += w[i]
+		}
+		return ref.Con{Lits: l, Coefs: w, K: r.Range(1, sum+r.Pick(0, 0, 1))}, "pb"
+	}
+}
+
+func genC09(r *world.Rng, w *world.World, big bool) {
+	t := world.TaskSpec{Kind: "incr"}
+	nMax := 10
+	switch r.Intn(4) {
+	case 0, 1:
+		n, cl := cnfInstance(r, 8, true)
+		var keep [][]int
+		for _, c := range cl {
+			if len(c) > 0 || r.Bool(0.1) {
+				keep = append(keep, c)
+			}
+		}
+		t.N, t.Clauses, t.Route = n, keep, "slicenb"
+		if t.Clauses == nil {
+			t.Clauses = [][]int{}
+		}
+	default:
+		route := r.PickS("card", "pb")
+		forms := []string{"clause", "card"}
+		if route == "pb" {
+			forms = []string{"clause", "card", "pb"}
+		}
+		n, cs := consInstance(r, 8, forms, 4)
+		cs = append(cs, topVarClause(r, n))
+		t.N, t.Cons, t.Route = n, cs, route
+	}
+	nCur := t.N
+	nOps := r.Range(2, 12)
+	for i := 0; i < nOps; i++ {
+		if r.Bool(0.4) || i == nOps-1 {
+			t.Ops = append(t.Ops, world.Op{Kind: "solve"})
+			continue
+		}
+		c, form := appendCon(r, nCur, nMax)
+		if m := c.MaxVar(); m > nCur {
+			nCur = m
+		}
+		cc := c
+		t.Ops = append(t.Ops, world.Op{Kind: "append", Con: &cc, Form: form})
+	}
+	w.Tasks = []world.TaskSpec{t}
+	knobs(r, w)
+	schedSingle(r, w)
+}
+
+// ---- C10 -------------------------------------------------------------------------
+
+func genC10(r *world.Rng, w *world.World, big bool) {
+	n, cl := cnfInstance(r, 10, false)
+	if n < 1 {
+		n = 1
+	}
+	var keep [][]int
+	for _, c := range cl {
+		if len(c) > 0 {
+			keep = append(keep, c)
+		}
+	}
+	if r.Bool(0.5) { // unit clauses / parse-time propagated facts
+		for i := 0; i < r.Range(1, 3); i++ {
+			keep = append(keep, []int{lit(r, n)})
+		}
+	}
+	if keep == nil {
+		keep = [][]int{}
+	}
+	t := world.TaskSpec{Kind: "assume", N: n, Clauses: keep, Route: r.PickS("slicenb", "slicenb", "dimacs")}
+	if t.Route == "dimacs" {
+		t.Text = dimacsText(r, n, keep, false)
+	}
+	rounds := r.Range(1, 8)
+	var prev []int
+	for i := 0; i < rounds; i++ {
+		var l []int
+		switch r.Intn(6) {
+		case 0: // empty
+		case 1: // repeat the previous round
+			l = append(l, prev...)
+		case 2: // contradict the previous round
+			for _, x := range prev {
+				l = append(l, -x)
+			}
+		case 3: // contradicting each other
+			v := r.Range(1, n)
+			l = []int{v, -v}
+		default:
+			l = distinctLits(r, n, r.Range(1, min(n, 4)))
+		}
+		if r.Bool(0.1) && len(l) > 0 { // repeated literal
+			l = append(l, l[0])
+		}
+		if l == nil {
+			l = []int{}
+		}
+		t.Ops = append(t.Ops, world.Op{Kind: "assume", Lits: l})
+		prev = l
+	}
+	w.Tasks = []world.TaskSpec{t}
+	knobs(r, w)
+	schedSingle(r, w)
+}
+
+// ---- C07 / C08 ------------------------------------------------------------------
+
+// explainInstance: small CNF (one clause per line for explain.ParseCNF).
+func explainInstance(r *world.Rng, maxN, maxM int) (int, [][]int) {
+	var n int
+	var cl [][]int
+	switch r.Intn(8) {
+	case 0: // trivially conflicting units plus noise
+		n = r.Range(1, maxN)
+		v := r.Range(1, n)
+		cl = [][]int{{v}, {-v}}
+		for i := 0; i < r.Range(0, 3); i++ {
+			cl = append(cl, distinctLits(r, n, r.Range(1, min(n, 3))))
+		}
+	case 1: // two disjoint cores
+		n = 4
+		cl = [][]int{{1, 2}, {1, -2}, {-1, 2}, {-1, -2}, {3}, {-3, 4}, {-4}}
+		if r.Bool(0.5) {
+			cl = append(cl, []int{3, 4})
+		}
+	case 2: // pigeonhole 3 into 2
+		n, cl = pigeon(3, 2)
+	case 3: // implication chain
+		n = r.Range(2, min(maxN, 6))
+		for i := 1; i < n; i++ {
+			cl = append(cl, []int{-i, i + 1})
+		}
+		cl = append(cl, []int{1}, []int{-n})
+	default:
+		n = r.Range(2, maxN)
+		m := r.Range(n, min(maxM, 3*n+2))
+		cl = randKSAT(r, n, m, 1, 3)
+	}
+	if r.Bool(0.3) && len(cl) > 0 { // repeated clause
+		cl = append(cl, append([]int{}, cl[r.Intn(len(cl))]...))
+	}
+	if len(cl) > maxM {
+		cl = cl[:maxM]
+	}
+	p := r.Perm(len(cl))
+	out := make([][]int, len(cl))
+	for i, j := range p {
+		out[i] = cl[j]
+	}
+	return n, out
+}
+
+func genC07(r *world.Rng, w *world.World, big bool) {
+	n, cl := explainInstance(r, 8, 14)
+	t := world.TaskSpec{Kind: "mus", N: n, Clauses: cl, Entry: r.PickS("MUS", "MUSDeletion", "MUSInsertion", "MUSMaxSat")}
+	t.Text = dimacsText(r, n, cl, true)
+	t.Chunks = chunks(r)
+	w.Tasks = []world.TaskSpec{t}
+	knobs(r, w)
+	schedMulti(r, w)
+}
+
+func certLine(c []int) string {
+	var b strings.Builder
+	for _, l := range c {
+		fmt.Fprintf(&b, "%d ", l)
+	}
+	b.WriteString("0")
+	return b.String()
+}
+
+// rupTrace derives clauses by unit propagation with the reference checker: a
+// certificate every line of which is RUP.
+func rupTrace(r *world.Rng, n int, cl [][]int, steps int) []string {
+	chk := ref.NewRUP(n, cl)
+	var out []string
+	for i := 0; i < steps*6 && len(out) < steps; i++ {
+		c := distinctLits(r, n, r.Range(1, min(n, 3)))
+		if chk.Check(c) {
+			out = append(out, certLine(c))
+		}
+	}
+	if chk.Refuted() && r.Bool(0.8) {
+		out = append(out, "0")
+	}
+	return out
+}
+
+func genC08(r *world.Rng, w *world.World, big bool) {
+	n, cl := explainInstance(r, 8, 12)
+	t := world.TaskSpec{Kind: "cert", N: n, Clauses: cl}
+	t.Text = dimacsText(r, n, cl, true)
+	t.Entry = r.PickS("unsat-reader", "unsat-chan", "unsat-chan", "subset")
+	if t.Entry != "subset" {
+		var lines []string
+		switch r.Intn(5) {
+		case 0, 1: // RUP-derivable sequence
+			lines = rupTrace(r, n, cl, r.Range(0, 6))
+		case 2: // random clauses
+			for i := 0; i < r.Range(0, 5); i++ {
+				lines = append(lines, certLine(distinctLits(r, n, r.Range(1, min(n, 3)))))
+			}
+			if r.Bool(0.4) {
+				lines = append(lines, "0")
+			}
+		case 3: // derivable sequence with one literal dropped or flipped, or a line removed
+			lines = rupTrace(r, n, cl, r.Range(1, 6))
+			if len(lines) > 0 {
+				i := r.Intn(len(lines))
+				c, _ := ref.ParseCertLine(lines[i])
+				switch {
+				case len(c) > 0 && r.Bool(0.4):
+					j := r.Intn(len(c))
+					c = append(c[:j:j], c[j+1:]...)
+					lines[i] = certLine(c)
+				case len(c) > 0 && r.Bool(0.6):
+					c[r.Intn(len(c))] *= -1
+					lines[i] = certLine(c)
+				default:
+					lines = append(lines[:i:i], lines[i+1:]...)
+				}
+			}
+		default: // only the empty clause, or nothing
+			if r.Bool(0.6) {
+				lines = []string{"0"}
+			}
+		}
+		// comments and blank lines anywhere
+		var withNoise []string
+		for _, ln := range lines {
+			if r.Bool(0.1) {
+				withNoise = append(withNoise, r.PickS("c a comment", "", "o 12", "s UNSATISFIABLE"))
+			}
+			withNoise = append(withNoise, ln)
+		}
+		t.Lines = withNoise
+		if t.Lines == nil {
+			t.Lines = []string{}
+		}
+		t.Cap = capacity(r)
+		t.Delays = delays(r)
+		t.Chunks = chunks(r)
+		if r.Bool(0.2) {
+			t.Text2 = "nonl"
+		}
+	}
+	w.Tasks = []world.TaskSpec{t}
+	knobs(r, w)
+	schedMulti(r, w)
+}
+
+// ---- C13 -------------------------------------------------------------------------
+
+func genC13(r *world.Rng, w *world.World, big bool) {
+	var t world.TaskSpec
+	switch r.Intn(4) {
+	case 0:
+		n, cl := cnfInstance(r, 8, true)
+		if len(cl) > 10 {
+			cl = cl[:10]
+		}
+		t = world.TaskSpec{Kind: "parse", Entry: "solver.ParseCNF", N: n, Clauses: cl, Text: dimacsText(r, n, cl, false)}
+	case 1:
+		n, cl := cnfInstance(r, 8, true)
+		if len(cl) > 10 {
+			cl = cl[:10]
+		}
+		t = world.TaskSpec{Kind: "parse", Entry: "explain.ParseCNF", N: n, Clauses: cl, Text: dimacsText(r, n, cl, true)}
+	case 2:
+		n, cs := consInstance(r, 8, []string{"clause", "card", "pb", "pb"}, r.Pick(3, 9))
+		if len(cs) > 10 {
+			cs = cs[:10]
+		}
+		for i := range cs {
+			if cs[i].Op == "<=" {
+				cs[i].Op = ">="
+			}
+			if cs[i].Op == "" {
+				cs[i].Op = ">="
+			}
+		}
+		var cost *ref.Cost
+		if r.Bool(0.6) {
+			cost = randCost(r, n, 5)
+			if r.Bool(0.15) {
+				if cost.Coefs == nil {
+					cost.Coefs = make([]int, len(cost.Lits))
+					for i := range cost.Coefs {
+						cost.Coefs[i] = 1
+					}
+				}
+				cost.Coefs[r.Intn(len(cost.Coefs))] = -r.Range(1, 4)
+			}
+		}
+		t = world.TaskSpec{Kind: "parse", Entry: "solver.ParseOPB", N: n, Cons: cs, Cost: cost, Text: opbText(r, n, cs, cost)}
+	default:
+		sub := world.World{}
+		genC04(r, &sub, big)
+		for sub.Tasks[0].Route != "wcnf" {
+			sub = world.World{}
+			genC04(r, &sub, big)
+		}
+		t = sub.Tasks[0]
+		t.Kind, t.Entry, t.Route = "parse", "maxsat.ParseWCNF", ""
+		t.Cap, t.Delays = 0, nil
+	}
+	t.Chunks = chunks(r)
+	t.EOFWith = r.Bool(0.3)
+	w.Tasks = []world.TaskSpec{t}
+	w.Sched = world.Sched{Strategy: "serial"}
+}
+
+// ---- bf filler (C16) ---------------------------------------------------------------
+
+func bfText(r *world.Rng, depth int) string {
+	vars := []string{"a", "b", "c", "d", "e", "f"}
+	if depth == 0 || r.Bool(0.3) {
+		v := vars[r.Intn(len(vars))]
+		if r.Bool(0.3) {
+			return "^" + v
+		}
+		return v
+	}
+	switch r.Intn(6) {
+	case 0:
+		return "(" + bfText(r, depth-1) + " & " + bfText(r, depth-1) + ")"
+	case 1:
+		return "(" + bfText(r, depth-1) + " | " + bfText(r, depth-1) + ")"
+	case 2:
+		return "(" + bfText(r, depth-1) + " -> " + bfText(r, depth-1) + ")"
+	case 3:
+		return "(" + bfText(r, depth-1) + " = " + bfText(r, depth-1) + ")"
+	case 4:
+		return "^(" + bfText(r, depth-1) + ")"
+	default:
+		k := r.Range(1, 5)
+		p := r.Perm(len(vars))
+		var names []string
+		for i := 0; i < k; i++ {
+			names = append(names, vars[p[i]])
+		}
+		return "{" + strings.Join(names, ", ") + "}"
+	}
+}
+
+func genBF(r *world.Rng, w *world.World) {
+	var parts []string
+	for i := 0; i < r.Range(1, 4); i++ {
+		parts = append(parts, bfText(r, 3))
+	}
+	w.Tasks = []world.TaskSpec{{Kind: "bf", Text: strings.Join(parts, "; ")}}
+	schedSingle(r, w)
+}
+
+func genC19(r *world.Rng, w *world.World, big bool) { stubCNF(r, w) }
 
 func stubCNF(r *world.Rng, w *world.World) {
 	n, cl := cnfInstance(r, 12, false)
 	w.Tasks = []world.TaskSpec{{Kind: "cnf", N: n, Clauses: cl, Route: "slicenb"}}
 	schedSingle(r, w)
 }
-
-func genC07(r *world.Rng, w *world.World, big bool) { stubCNF(r, w) }
-func genC08(r *world.Rng, w *world.World, big bool) { stubCNF(r, w) }
-func genC09(r *world.Rng, w *world.World, big bool) { stubCNF(r, w) }
-func genC10(r *world.Rng, w *world.World, big bool) { stubCNF(r, w) }
-func genC13(r *world.Rng, w *world.World, big bool) { stubCNF(r, w) }
-func genC19(r *world.Rng, w *world.World, big bool) { stubCNF(r, w) }
-func genBF(r *world.Rng, w *world.World)            { stubCNF(r, w) }
